@@ -284,15 +284,17 @@ func c07Observe(e Ev, pat psi.PAT, err error) {
 	if err != nil || pat == nil {
 		return
 	}
-	e["nump"] = pat.NumPrograms()
-	pm := [][]int{}
-	for pn, pid := range pat.ProgramMap() {
-		pm = append(pm, []int{pn, pid})
-	}
-	sort.Slice(pm, func(i, j int) bool { return pm[i][0] < pm[j][0] })
-	e["pmap"] = pm
-	pid, serr := pat.SPTSpmtPID()
-	e["spts_ok"], e["spts"] = serr == nil, pid
+	inOrder(e, func() { e["nump"] = pat.NumPrograms() }, func() {
+		pm := [][]int{}
+		for pn, pid := range pat.ProgramMap() {
+			pm = append(pm, []int{pn, pid})
+		}
+		sort.Slice(pm, func(i, j int) bool { return pm[i][0] < pm[j][0] })
+		e["pmap"] = pm
+	}, func() {
+		pid, serr := pat.SPTSpmtPID()
+		e["spts_ok"], e["spts"] = serr == nil, pid
+	})
 }
 
 func (c07) Exec(h []Ev) []Ev {
